@@ -37,6 +37,8 @@ def _run_config(args):
     t0 = time.time()
     out = dict(cfg=cfg, key=cfg.get("key", json.dumps(cfg, sort_keys=True)))
     try:
+        import logging
+        logging.disable(logging.CRITICAL)
         from symx import core, build
         mod = _harness_module(pid)
         ns = build.load()
@@ -293,10 +295,17 @@ def main(argv):
     strict = os.environ.get("VERIF_STRICT") == "1"
     for fid, (f, key, v, rep, path) in sorted(known_hits.items()):
         print(f"KNOWN-FINDING: property={pid} {f['id']}: {f.get('what', '')} [config {key}, obligation {v['name']}, replay {os.path.relpath(path, VERIF)}]")
+    shown = set()
     for key, v, rep, path in new_violations:
+        kind = (key, v["name"].split("[")[0])
+        if kind in shown or len(shown) >= 12:
+            continue
+        shown.add(kind)
         print(f"VIOLATION property={pid} replay={os.path.relpath(path, VERIF)}")
         print(f"  config={key} obligation={v['name']} real-build: {str(rep.get('detail'))[:300]}")
-    for key, v, rep in unreproduced:
+    if len(new_violations) > len(shown):
+        print(f"  (+{len(new_violations) - len(shown)} further reproduced counterexamples under evidence/replay/)")
+    for key, v, rep in unreproduced[:8]:
         harness_error = True
         print(f"harness-error: counterexample does not reproduce on the real build: config={key} obligation={v['name']} "
               f"case={json.dumps(v.get('case'), default=str)[:400]} real={json.dumps(rep, default=str)[:300]}")
